@@ -12,7 +12,7 @@ RULE = ("Hypothesis-generated programs valid for all seven backends, decorated w
         "are random trees (depth <= 3) over *, the seven backend names, unknown names, supports=<flag> for all 24 flags, not/any/all (incl. empty and singleton "
         "lists), placed on bridge modules, unreferenced types, impl blocks and methods. Oracle per backend b: an independent evaluator decides each formula "
         "(supports= atoms calibrated per run by canary methods); the output of b on the program must be byte-identical to its output on the program where every "
-        "formula is replaced by `*` (if true for b) or the attribute is removed (if false); the symbols b refers to must equal the model's enabled set with "
+        "formula is replaced by `*` (if true for b) or the attribute is removed (if false); a rename whose condition holds (a type's or method's own, or an impl block's `prefix_{0}` pattern applied to the methods without an own one) must be visible in the C++/JS/Dart/Python output; the symbols b refers to must equal the model's enabled set with "
         "module->type/method, impl->method and type->method inheritance; nm of the compiled crate still shows every function. A case = one (program, backend). "
         "Non-trivial: the program has a formula that is not a bare atom and whose truth differs across backends, or an inherited (module/impl) placement. "
         "Distinct = distinct (program, backend).")
@@ -178,6 +178,18 @@ def cases(draw):
             placements.append({"site": list(upper), "kind": "disable", "value": None, "formula": ("name", b1)})
             placements.append({"site": list(ms), "kind": "disable", "value": None, "formula": ("name", b2)})
             disabled_chain.add(("method",) + tuple(ms[1:5]))
+    # a rename pattern on an impl block (inherited by its methods) next to whatever the methods carry themselves: the method's
+    # own rename is the more specific one
+    isites = [s_ for s_ in sites if s_[0] == "impl" and target_of(prog, s_)["methods"]]
+    if isites and draw(st.integers(0, 2)) == 0:
+        isite = draw(st.sampled_from(isites))
+        counter += 1
+        placements.append({"site": list(isite), "kind": "rename", "value": "dvimpl%d_{0}" % counter, "formula": draw(st.one_of(formulas(), st.just(("star",))))})
+        own = [s_ for s_ in msites_all(sites, isite) if not any(pl["site"] == list(s_) and pl["kind"] == "rename" for pl in placements)]
+        if own and draw(st.booleans()):
+            ms_ = draw(st.sampled_from(own))
+            counter += 1
+            placements.append({"site": list(ms_), "kind": "rename", "value": "renamed_m%d" % counter, "formula": draw(st.one_of(formulas(), st.just(("star",))))})
     # a disable inherited from an enclosing item (type, impl) plus one on the method itself, under conditions that may hold
     # together: the method is then simply disabled (both-true must not be an error)
     if msites and draw(st.integers(0, 2)) == 0:
@@ -196,6 +208,10 @@ def cases(draw):
             disabled_chain.add(("method",) + tuple(ms[1:5]))
             disabled_chain.add(upper)
     return prog, placements
+
+
+def msites_all(sites, isite):
+    return [s_ for s_ in sites if s_[0] == "method" and tuple(s_[1:4]) == tuple(isite[1:4])]
 
 
 def attr_text(kind, value, formula_text):
@@ -255,6 +271,37 @@ def enabled_symbols(prog, placements, backend, table):
                         continue
                     out.add(naming.method_symbol(mod, it, impl, m))
     return out
+
+
+def rename_effects(prog, placements, b, table, files):
+    """None, or a message: a true rename (own value, or the impl block's pattern applied to the method name) that the output does not show"""
+    norm = lambda x: re.sub(r"[^a-z0-9]", "", x.lower())
+    text = norm(" ".join(list(files) + [v.decode(errors="replace") for v in files.values()]))
+    true = [pl for pl in placements if cfgm.evaluate(pl["formula"], b, table[b])]
+    dis = {tuple(pl["site"][1:]) for pl in true if pl["kind"] == "disable"}
+
+    def disabled(site):
+        rest = tuple(site[1:])
+        return any(rest[:n] in dis for n in range(1, len(rest) + 1))
+    for pl in true:
+        if pl["kind"] != "rename" or disabled(pl["site"]):
+            continue
+        k = pl["site"][0]
+        if k in ("type", "type-rename", "method"):
+            if k == "method" and sum(1 for q in true if q["kind"] == "rename" and q["site"] == pl["site"]) > 1:
+                continue
+            if norm(pl["value"]) not in text:
+                return "the %s carries `rename = \"%s\"` under a condition that holds here, but the name appears nowhere in the output" % ("method" if k == "method" else "type", pl["value"])
+        elif k == "impl":
+            impl = target_of(prog, pl["site"])
+            for mk, m in enumerate(impl["methods"]):
+                msite = ["method"] + list(pl["site"][1:]) + [mk]
+                if disabled(msite) or any(q["kind"] == "rename" and q["site"] == msite for q in true) or m["name"] == "dv_demo_new":
+                    continue
+                exp = pl["value"].replace("{0}", m["name"])
+                if norm(exp) not in text:
+                    return "the impl block carries the pattern `rename = \"%s\"` under a condition that holds here, but `%s` appears nowhere in the output" % (pl["value"], exp)
+    return None
 
 
 def interesting(placements, table):
@@ -330,6 +377,11 @@ def check_backend(art, work, prog, placements, b, table):
         k = diff[0]
         return "fail", "%s: output differs from the output with resolved conditions (%s) in %s\n--- lib.rs ---\n%s\n--- %s with conditions ---\n%s\n--- %s resolved ---\n%s" % (
             b, truth, diff[:5], s1, k, (f1.get(k) or b"<missing>").decode(errors="replace")[:900], k, (f2.get(k) or b"<missing>").decode(errors="replace")[:900])
+    # a rename whose condition holds must be visible in the backends that render renamed names (and the most specific one wins)
+    if b in ("cpp", "js", "dart", "nanobind"):
+        msg = rename_effects(prog, placements, b, table, f1)
+        if msg:
+            return "fail", "%s: %s (%s)\n--- lib.rs ---\n%s" % (b, msg, truth, s1)
     want = enabled_symbols(prog, placements, "js" if b == "demo_gen" else b, table)
     got = sym.symbols(b, os.path.join(work, "o1"))["referenced"]
     if got != want:
